@@ -435,6 +435,23 @@ def c17_oracle(full, io, b):
             if (idp == "T") != exp_default and v.n_of(h, "is_default_port") not in flagged:
                 out.append(fail(v, h, "is_default_port", f"is_default_port() = {idp} but explicit_port = {e_}, scheme default {dflt}", "is-default-port"))
                 continue
+        sv = v.get(h, "str")
+        if sv is not None and not sv.startswith("!") and has_auth and dec(rh) and idp in ("T", "F"):
+            m = re.match(r"^[A-Za-z][A-Za-z0-9+.\-]*://([^/?#]*)", dec(sv))
+            if m:
+                hp = m.group(1).rpartition("@")[2]
+                rest = hp.partition("]")[2] if hp.startswith("[") else hp[len(hp.partition(":")[0]):]
+                exp_shown = None if (e_ is None or e_ == dflt) else e_
+                def _pv(t):
+                    try:
+                        return int(t)          # the port TEXT may be any spelling int() accepts (encoded=True keeps it as written)
+                    except ValueError:
+                        return "?"
+                ok = (rest == "" and exp_shown is None) or (rest.startswith(":") and exp_shown is not None and _pv(rest[1:]) == exp_shown)
+                if not ok and v.n_of(h, "str") not in flagged:
+                    out.append(fail(v, h, "str", f"str(url) = {dec(sv)!r} writes the port as {rest!r} but explicit_port = {e_}, scheme default {dflt}: expected {'no port' if exp_shown is None else ':%d' % exp_shown}",
+                                    "port-shown", also=[v.n_of(h, "explicit_port"), v.n_of(h, "scheme")]))
+                    continue
         if hps is not None and hps != "~" and not hps.startswith("!") and has_auth and dec(rh):
             shown = re.search(r":(\d+)\Z", dec(hps).rpartition("]")[2] if "]" in dec(hps) else (dec(hps) if ":" in dec(hps) else ""))
             exp_shown = None if (e_ is None or e_ == dflt) else e_
@@ -486,6 +503,17 @@ def c17_streams(rng, tier, budget):
         st.obs_all(st.build(scheme=sc, host="h", port="80"), C17_OBS)
     for s in ["http://h:", "http://h:+1", "http://h:1_0", "http://h: 80", "http://h:٣", "http://h:abc", "http://h:0x50", "http://h:080", "http://h:80:80", "//h:0", "http://[::1]:"]:
         st.obs_all(st.new(s), C17_OBS)
+    # the port TEXTS int() accepts beyond plain digits, equal to the scheme default or not, kept as written by encoded=True and then carried
+    # through derivations: every port view decides by the integer value, not by the text
+    for sc, dp in (("http", 80), ("https", 443), ("ftp", 21), ("x", None)):
+        for txt in ("080", "00080", "+80", " 80", "80 ", "8_0", "0443", "+443", "021", "0", "00", "+0", "8080", "08080"):
+            for hst in ("h", "[::1]", "u@h"):
+                for encd in (True, False):
+                    h = st.new(f"{sc}://{hst}:{txt}/p", encoded=encd)
+                    st.obs_all(h, C17_OBS)
+                    if txt in ("080", "0443", "+80", "021"):
+                        for d in (st.mod(h, "with_scheme", enc("https" if sc != "https" else "http")), st.mod(h, "truediv", enc("c")), st.mod(h, "with_fragment", enc("f")), st.pkl(h)):
+                            st.obs_all(d, C17_OBS)
     yield "port-matrix", st
     # URLs DERIVED from one with a written port (origin, with_host, with_user, /, join, pickle, parent …) are parsed lazily: the
     # port observables are read in both orders (port first / port last), because a value cached by one accessor can mask or
@@ -576,6 +604,18 @@ def c18_streams(rng, tier, budget):
             r = st.hr(u)
             st.obs_all(r, ["str", "val"])
             st.cmp(r, u)
+    # PARSED URLs (build() drops a default port; the parser keeps it): host kinds x written ports incl. the scheme default, empty user with a
+    # password, empty path before a query, '#' and '?' inside the fragment
+    for sc, dp in (("http", 80), ("https", 443), ("ws", 80), ("ftp", 21), ("x", None)):
+        for hst in ("хост.домен", "bücher.h1", "[::1]", "[fe80::1%25eth0]", "1.2.3.4", "example.com"):
+            for pt in ("", ":%d" % dp if dp else ":1", ":8080", ":0", ":80"):
+                for tail in ("/шлях", "", "?a=b", "/p#a#b?c"):
+                    for ui in ("", ":pw@", "u:@"):
+                        u = st.new(f"{sc}://{ui}{hst}{pt}{tail}")
+                        st.obs_all(u, ["human_repr", "str", "val"])
+                        r = st.hr(u)
+                        st.obs_all(r, ["str", "val"])
+                        st.cmp(r, u)
     n = int((500 if tier == "quick" else 8000) * budget)
     for _ in range(n):
         kw = {"scheme": pick(rng, ["http", "https", "ftp", "x"]), "host": pick(rng, hosts)}
